@@ -131,6 +131,11 @@ def _gen_invalid(rng, cfg, sess, salt):
                 n = 4 * L
     elif cls == "wb_offset_past_end":
         b = [0, ln, n + rng.choice([0, 1, 7])]
+        if cfg.cstyle == "interleaved" and cfg.nsub == 1 and rng.random() < 0.6:
+            # I/Q handed over as one flat real array of 2N values: an offset between N and 2N is past the end of
+            # the N samples all the same
+            return {"op": "wb", "g": g, "b": [0, ln, n + rng.choice([1, ln, n - 1])], "len": n, "salt": salt, "invalid": cls,
+                    "layout": "flat_iq"}
     elif cls == "wb_len_mismatch":
         v = rng.random()
         if v < 0.35:
@@ -358,6 +363,10 @@ def gen_plan(prop, tier, rng, i):
         plan["sessions"][0]["companion_step"] = rng.choice([2, cap_, 3 * cap_])
     if rng.random() < (0.15 if prop == "C11" else 0.04):
         plan["long_path"] = True
+    if prop == "C19" and rng.random() < 0.15:
+        plan["sessions"][0]["exit_by_exception"] = True
+    # local time zone of the process that reads (readers build subdirectory names; the format's names are UTC)
+    plan["reader_tz"] = rng.choice([None, None, None, "XST8", "YST-5:30"])
     if prop == "C19" and i % 6 == 5:
         # counters near the top of the 64-bit range: recording starts near index 0 (1970) at a multi-GHz rate and the
         # data resumes decades later, so that the *relative* positions the writer reports pass 2**63.  Only the
@@ -614,6 +623,7 @@ def _run_session(ctx, tree, cfg, sess, si, chan_model, state):
     """run one writer session in a node; evaluate call-level clauses (C05, C19, C11)"""
     res = ctx.res
     c = _session_cfg(cfg, sess)
+    c.exit_by_exception = bool(sess.get("exit_by_exception"))
     top = os.path.join(tree, sess["top"])
     chdir = os.path.join(top, c.channel)
     os.makedirs(chdir, exist_ok=True)
@@ -1272,6 +1282,13 @@ def run_plan(prop, plan):
     os.makedirs(tree)
     state = {"scratch": sc}
     seams.install(tree, plan.get("readdir_seed", 1))
+    old_tz = os.environ.get("TZ")
+    if plan.get("reader_tz"):
+        import time as _time
+
+        os.environ["TZ"] = plan["reader_tz"]
+        _time.tzset()
+        res.probe("reader_process_tz_not_utc")
     try:
         chan_model = M.RFModel(cfg)
         tops, sessions_info = [], {}
@@ -1307,6 +1324,12 @@ def run_plan(prop, plan):
                         res.probe("early_reader_polled_planned_window")
                         for p_, cls, msg in RC.read_vs_model(early_reader, cfg, chan_model, fb[0], fb[1]):
                             ctx.v(p_, cls, "[early reader, planned window] " + msg)
+                        try:
+                            eb_ = early_reader.get_bounds(cfg.channel)
+                            if tuple(eb_) != tuple(chan_model.expected_bounds()):
+                                ctx.v("C08", "bounds", "[early reader] get_bounds %s expected %s" % (eb_, chan_model.expected_bounds()))
+                        except Exception as e_:  # noqa
+                            ctx.v("C08", "bounds", "[early reader] get_bounds raised %s" % type(e_).__name__)
         ctx.tops = tops
         if state.get("valid_fail_after_reject"):
             if plan.get("_counterfactual"):
@@ -1422,6 +1445,14 @@ def run_plan(prop, plan):
         return res
     finally:
         seams.uninstall()
+        if plan.get("reader_tz"):
+            import time as _time
+
+            if old_tz is None:
+                os.environ.pop("TZ", None)
+            else:
+                os.environ["TZ"] = old_tz
+            _time.tzset()
         if not os.environ.get("VSIM_KEEP"):
             shutil.rmtree(sc, ignore_errors=True)
 
